@@ -120,7 +120,11 @@ def run_case(case):
     count = {"components_%d" % min(len(comps), 3): 1}
     if len(comps) == 1:
         if not isinstance(coords, np.ndarray) or coords.ndim != 2 or coords.shape[1] != n_dim:
-            bad("single_region_not_array", {"type": type(coords).__name__, "shape": list(np.shape(coords))})
+            try:
+                shp = list(np.shape(coords))
+            except Exception:       # a ragged list of regions has no shape
+                shp = f"ragged list of {len(coords)}"
+            bad("single_region_not_array", {"type": type(coords).__name__, "shape": shp})
         else:
             if _multiset(coords) != _multiset(exp_all):
                 bad("coordinates_not_boundary_cells", {"returned": len(coords), "boundary_cells": len(exp_all),
